@@ -15,6 +15,8 @@ def missing_values_discipline(ctx: Ctx, rule: str):
     sm = ctx.sm
     cgc = sm.cls("codegen/base.py", "CodeGenerator")
     f = cgc.methods["missing_values"]
+    if any(isinstance(n, ast.FunctionDef) for n in ast.walk(f.node) if n is not f.node):
+        f = util.nff(ctx, f)  # a local helper that stores one value is read as if written where it is called
     loops = [n for n in f.node.body if isinstance(n, ast.For)]
     if len(loops) != 2:
         # the counter discipline is judged on the two-loop idiom (store, count, early exit); another construction
@@ -27,6 +29,10 @@ def missing_values_discipline(ctx: Ctx, rule: str):
         # the counter: the one local advanced by `+= 1` inside the loops; the bound: whatever is compared with it
         ctrs = sorted({norm(n.target) for l_ in loops for n in ast.walk(l_) if isinstance(n, ast.AugAssign) and isinstance(n.op, ast.Add) and isinstance(n.value, ast.Constant) and n.value.value == 1})
         ctr = ctrs[0] if len(ctrs) == 1 else "n"
+        # the same bookkeeping with a set of the names still to be stored: `pending = set(values)`, one
+        # `pending.discard(name)` per store, stop when it is empty
+        pend = sorted({norm(n.targets[0]) for n in f.node.body if isinstance(n, ast.Assign) and len(n.targets) == 1 and isinstance(n.targets[0], ast.Name) and norm(n.value) in (f"set({f.params[1] if len(f.params) > 1 else 'values'})", f"set({f.params[1] if len(f.params) > 1 else 'values'}.keys())")}) if not ctrs else []
+        pset = pend[0] if len(pend) == 1 else None
         canon = util.canon_of(f)
         vparam = f.params[1] if len(f.params) > 1 else "values"
         # the output array: whatever local holds the IndexedBase
@@ -50,6 +56,8 @@ def missing_values_discipline(ctx: Ctx, rule: str):
                 req = [pol for a, pol in p.lits if a == f"{v}.name in values"]
                 stores = [i for i, st in enumerate(p.effects) if isinstance(st, ast.Expr) and any(isinstance(sb, ast.Subscript) and isinstance(sb.value, ast.Name) and sb.value.id in ibs and norm(sb.slice) == f"{vparam}[{v}.name]" for sb in ast.walk(st)) and f"{v}.symbol" in norm(st)]
                 incs = [i for i, st in enumerate(p.effects) if isinstance(st, ast.AugAssign) and norm(st.target) == ctr]
+                if pset is not None:
+                    incs = [i for i, st in enumerate(p.effects) if isinstance(st, ast.Expr) and isinstance(st.value, ast.Call) and norm(st.value.func) in (f"{pset}.discard", f"{pset}.remove") and len(st.value.args) == 1 and norm(st.value.args[0]) == f"{v}.name"]
                 defs = [i for i, st in enumerate(p.effects) if isinstance(st, ast.Expr) and f"self._doprint({v}.symbol, {v}.expr" in norm(st)]
                 key = f.key(f"loop{idx + 1}::{p.pred()}")
                 if req and req[0]:
@@ -70,9 +78,14 @@ def missing_values_discipline(ctx: Ctx, rule: str):
             lt, rt = norm(t_.left), canon.text(t_.comparators[0])
             bound_txt = rt
             okb = ((lt == ctr and isinstance(t_.ops[0], (ast.GtE, ast.Eq)) and rt == f"len({vparam})") or (canon.text(t_.left) == f"len({vparam})" and norm(t_.comparators[0]) == ctr and isinstance(t_.ops[0], (ast.LtE, ast.Eq)))) and brk[0] is l2.body[-1]
+        if pset is not None and brk:
+            okb = norm(brk[0].test) in (f"not {pset}", f"len({pset}) == 0") and brk[0] is l2.body[-1]
         ctx.check(okb, rule, f.key("early-exit"), "stop once all requested values are stored (count >= len(values)), tested after the store", f"missing_values: the early exit is not `if <count> >= len({vparam}): break` at the end of the loop body (test: {norm(brk[0].test) if brk else None})", f.where(l2))
         inits = [n for n in f.node.body if isinstance(n, (ast.Assign, ast.AnnAssign)) and norm(n.targets[0] if isinstance(n, ast.Assign) else n.target) == ctr and n.value is not None]
-        ctx.check(bool(inits) and norm(inits[0].value) == "0" and len(ctrs) == 1, rule, f.key("counter-init"), "one counter, starting at 0", f"missing_values: the stored-values counter is {ctrs} initialised with {norm(inits[0].value) if inits else None}", f.where())
+        if pset is not None:
+            ctx.ok(rule, f.key("counter-init"), f"the names still to be stored are kept in `{pset} = set(values)`", f.where())
+        else:
+            ctx.check(bool(inits) and norm(inits[0].value) == "0" and len(ctrs) == 1, rule, f.key("counter-init"), "one counter, starting at 0", f"missing_values: the stored-values counter is {ctrs} initialised with {norm(inits[0].value) if inits else None}", f.where())
 
 
 
